@@ -1,4 +1,5 @@
 import OpcuaVerif.Model.C18
+import OpcuaVerif.Generated.CryptoPolicy
 import OpcuaVerif.Lemmas.C18Table
 
 /-!
@@ -128,5 +129,17 @@ theorem good_key_length (tu sv ct rd ir td : Bool) (tf : TrustedFile) (p : Polic
     by_cases hb : lo ≤ bits ∧ bits ≤ hi
     · exact ⟨lo, hi, rfl, hb.1, hb.2⟩
     · simp [hb] at hk
+
+/-! ### the model's key ranges are the ones in the source (translator T2) -/
+
+def Policy.rustName : Policy → String
+  | .none => "None" | .basic128Rsa15 => "Basic128Rsa15" | .basic256 => "Basic256"
+  | .basic256Sha256 => "Basic256Sha256" | .aes128Sha256RsaOaep => "Aes128Sha256RsaOaep"
+  | .aes256Sha256RsaPss => "Aes256Sha256RsaPss" | .unknown => "Unknown"
+
+open OpcuaVerif.Generated.CryptoPolicy in
+/-- regenerated from `security_policy.rs` on every check -/
+theorem model_matches_source (p : Policy) : p.minMax? = lookup asymKeyLen p.rustName := by
+  cases p <;> decide +kernel
 
 end OpcuaVerif.C18
